@@ -98,6 +98,23 @@ fn gen_lang(a: &HashMap<String, String>) {
             by_scheme[si].push(ctxs.len());
         }
     }
+    if family == "c02" || family == "rich" {
+        // long arrays in some contexts: an index of 8 and above (written 010, 0x8, 8, ...) finds an element
+        for (k, c) in ctxs.iter_mut().enumerate() {
+            if k % 2 == 0 {
+                for v in c.vals.iter_mut() {
+                    if let Val::Arr { e, v: items } = v {
+                        if *e == Ty::Int && !items.is_empty() {
+                            while items.len() < 13 {
+                                let n = items.len() as i64;
+                                items.push(Val::int(n * 3 - 7));
+                            }
+                        }
+                    }
+                }
+            }
+        }
+    }
     if family == "c11" {
         // values over the pattern alphabet, so that patterns hit
         fn re_bytes(r: &mut rand::rngs::StdRng, v: &mut Val) {
